@@ -153,7 +153,7 @@ _EXTRA = {
     "C10": "; endurance stage (one workspace / evaluator, gaps of 2^8+-1 and 2^16+-1 filler calls between two opposite simplifications); repeated identical calls",
     "C11": "; function-level evaluators reused across 1..4-output functions with equal sample counts; every binary operation with special immediates over boxes with zero / extreme bounds",
     "C13": "; extreme power-of-two scales; imports into a long-lived context cleared between cases",
-    "C14": "; long-lived shape evaluators of all four kinds across dropped shapes; samples on the unit-weight locus of perspective rows; per-sample derivative seeds",
+    "C14": "; long-lived shape evaluators of all four kinds across dropped shapes; samples on the unit-weight locus of perspective rows; per-sample derivative seeds; the transformed box observed through the axis shapes must contain f64 images of its corners and inner points",
     "C15": "; simplification into storage recycled from a serialized tape",
     "C16": "; extreme scale factors (alone and nested), far nearly-on-axis rotation centres, re-import into a cleared context",
     "C18": "; drifting zoom histories that reach the ends of the scale band",
